@@ -13,6 +13,9 @@ CLAIMED = {
  "C03": dict(tech="exception-containment query over lexical try nesting + handler CFG; def-use dominance (must-pass-through) of the failed-status replacement; abstract evaluation of every shipped Colang 2 rail under action result None; flag pairing over failure exits",
              text="Decides containment of every expression that can run user action code in the dispatcher (all call sites, not sampled faults), the failed=>internal-error dominance in both runtimes, and fail-closed behaviour of every shipped Colang 2 blocking rail when its action fails. Found and repaired F3; F4 (5 rails that pass on a failed action) are listed known findings.",
              ref="DESIGN.md C03"),
+ "C16": dict(tech="table agreement (model fields / translation keys / Colang guards / docs); abstract guard evaluation per category over the Colang CFG; complete path enumeration of the loop-free UserMessage flow against the documented decision table; producer/consumer marker protocol",
+             text="Decides that each rail category's runner is guarded by its own option and no other (all abstract option combinations), the rails-only decision table of the UserMessage flow (complete, the flow is loop-free), the bot_message hand-over guard, and the marker protocol that makes `stop` land on exactly the open rail. Does not decide the concrete activated_rails list for a verdict combination.",
+             ref="DESIGN.md C16"),
 }
 NA = {
  "C18": "equality of string results over all chunkings of a stateful transducer; no structural necessary condition that is not a brittle proxy (DESIGN.md C18)",
